@@ -106,8 +106,33 @@ def check_trees(ctx, trees, label):
         if len(children(tree)) >= 2:
             ctx.nontriv(tree)
             ctx.sample({"tree": tree, "rendered": s})
+    reused_visitor_passes(ctx, trees, {json.dumps(t): s for t, s in by_id.values()}, label)
     # trace validation of the emitted texts against the spec's lexer + parser
     validate_texts(ctx, cases, by_id, label)
+
+
+def reused_visitor_passes(ctx, trees, first_text, label):
+    """A visitor instance may be reused, and what it printed earlier must not influence what it prints now: the
+    same trees are rendered again by one fresh shared instance in generation order and by another in reverse
+    order; any text that differs from the first rendering is itself subject to the property."""
+    from odata_query.roundtrip import AstToODataVisitor
+    for order, seq in (("forward", trees), ("reverse", list(reversed(trees)))):
+        v = AstToODataVisitor()
+        for tree in seq:
+            try:
+                s = v.visit(project.build(tree))
+            except Exception as e:  # noqa
+                ctx.violation({"kind": "render-raises", "exc": type(e).__name__, "features": classify(tree), "reused": order},
+                              {"tree": tree, "exc": type(e).__name__, "msg": str(e)[:200], "gen": label})
+                continue
+            ctx.evaluations += 1
+            if s == first_text.get(json.dumps(tree)):
+                continue
+            got = project.outcome(s) if isinstance(s, str) else ["nonstring"]
+            ctx.traces += 1
+            if got != ["ok", tree]:
+                ctx.violation({"kind": "reparse-mismatch", "features": classify(tree), "reused": order},
+                              {"tree": tree, "text": s, "got": got, "gen": label, "order": order})
 
 
 def validate_texts(ctx, cases, by_id, label):
@@ -170,4 +195,7 @@ def run(ctx):
 
 def replay(ctx, rep):
     d = rep["detail"]
+    if "order" in d:      # depends on what the reused visitor rendered before: re-run the generation
+        print("reused-visitor case (%s order); text: %s" % (d["order"], d.get("text")))
+        return run(ctx)
     check_trees(ctx, [d["tree"]], "replay")
